@@ -195,12 +195,12 @@ extractor finds in /repo's current source has rows in `accountRender`.  Re-prove
 regenerated census on every run: a site added to the Rust (a new `.unwrap()` in `interpret`, one
 more `state.stack.pop()`-like `expect`, a new index expression …) that the account does not know
 breaks this `decide`. -/
-theorem census_render_accounted : covers Generated.panicCensusRender accountRender = true := by decide
+theorem census_render_accounted : coversF Generated.panicCensusRender accountRender = true := by decide
 
 /-! ## The tie bites, and only on additions (spot checks of `covers` itself) -/
 
 /-- a new `.unwrap()` in `interpret` is not covered -/
-example : covers (("vm/interpreter.rs", "interpret", "unwrap", "Some(1)", 1) :: Generated.panicCensusRender)
+example : coversF (("vm/interpreter.rs", "interpret", "unwrap", "Some(1)", 1) :: Generated.panicCensusRender)
     accountRender = false := by decide
 
 /-- a ninth `expect("to have a span for error")` is not covered (the two rows add up to eight) -/
@@ -211,6 +211,6 @@ example : covers [("vm/interpreter.rs", "interpret", "expect", "\"to have a span
 example : covers [("vm/state.rs", "get_value", "index", "self.for_loops[0]", 1)] accountRender = false := by decide
 
 /-- removing sites keeps the census covered -/
-example : covers (Generated.panicCensusRender.drop 3) accountRender = true := by decide
+example : coversF (Generated.panicCensusRender.drop 3) accountRender = true := by decide
 
 end Tera.PanicCensus
